@@ -142,10 +142,20 @@ Wrapped ==
      \cup {CC(<<Raw("str", <<cA>>), Box(x)>>) : x \in X}
      \cup {Replace(Cached(x), <<Repl(0, 1, <<cX>>)>>) : x \in X}
 
+(* a ReplaceSource as a child: what it reports as its end becomes the offset *)
+(* of the next child (trailing replacements with line breaks included)      *)
+ReplThenSibling ==
+  IF Scope \notin {"c01","c02"} THEN {} ELSE
+  UNION {{CC(<<Replace(x, <<Repl(p[1], p[2], c)>>), y>>) :
+            p \in {q \in (0..(TextLen(x) + 1)) \X (0..(TextLen(x) + 1)) : q[1] <= q[2]},
+            c \in {<<>>, <<cX>>, <<NL>>, <<cX, NL, cX>>},
+            y \in {Orig(<<cA>>), Orig(<<cA, NL, cA>>), Raw("str", <<cA>>)}} :
+          x \in {Orig(<<cA, cA>>), Raw("str", <<cA, NL, cA>>), Orig(<<cA, NL>>)}}
+
 TreesSmall ==
   IF Scope \notin {"c01","c02"} THEN {} ELSE
   LeavesRich \cup Pairs \cup ReplOverLeaf1 \cup ReplOverLeaf2
-  \cup ReplOverPair \cup Wrapped
+  \cup ReplOverPair \cup Wrapped \cup ReplThenSibling
 
 (* binary and multi-byte leaves for the content-view scope                  *)
 BinLeaves ==
@@ -639,7 +649,11 @@ BaseTrees ==
    Box(Orig(<<cA, cB>>)),
    CC(<<Replace(Orig(<<cA, cB, cA>>), <<ReplNm(1, 1, <<cX>>, <<>>, 0), ReplNm(1, 1, <<cB>>, <<>>, 2)>>),
         Cached(Orig(<<cA, NL, cB>>))>>),
-   Replace(CC(<<Orig(<<cA, cB>>), Raw("rawstr", <<cA>>)>>), <<ReplNm(1, 3, <<>>, <<>>, 1)>>)}
+   Replace(CC(<<Orig(<<cA, cB>>), Raw("rawstr", <<cA>>)>>), <<ReplNm(1, 3, <<>>, <<>>, 1)>>),
+   \* empty children still matter: an empty OriginalSource announces its file
+   CC(<<Orig(<<>>), Orig(<<cA, NL>>)>>),
+   CC(<<Orig(<<cA>>), Cached(Orig(<<>>)), Raw("str", <<>>)>>),
+   Replace(Orig(<<>>), <<ReplNm(0, 0, <<cX>>, <<>>, 1)>>)}
 
 TextEdits(b) == {b \o <<cX>>, <<cX>> \o b} \cup (IF b = <<>> THEN {} ELSE {Take(b, Len(b) - 1)})
 SubKinds == {"str", "buf", "rawstr", "rawbuf"}
@@ -728,6 +742,13 @@ C14Differ(t, e, o1) ==
 C14Scope ==
   IF Scope # "c14" THEN {} ELSE
   {C14Same(t, o1, o2) : t \in BaseTrees, o1 \in C14Obs, o2 \in C14Obs}
+  \* wrapped pairs one edit apart, with the hash memo of one or both filled
+  \cup UNION {{C14Differ(Cached(t), Cached(e), o1) :
+                 e \in Edits(t) \ {t},
+                 o1 \in {<<HashOn(0)>>, <<HashOn(0), HashOn(1)>>, <<HashOn(1), ObsOn("source", 0)>>}} :
+               t \in BaseTrees}
+  \cup UNION {{C14Differ(Box(Cached(Box(t))), Box(Cached(Box(e))), <<HashOn(0), HashOn(1)>>) :
+                 e \in Edits(t) \ {t}} : t \in BaseTrees}
   \cup UNION {{C14Differ(t, e, o1) : e \in Edits(t) \ {t}, o1 \in {<<>>, <<ObsOn("source", 0)>>, <<HashOn(0)>>}} :
                t \in BaseTrees}
 
